@@ -29,7 +29,7 @@ PROPS['C19'] = dict(
          'argument class) cells in which at least one input was judged - NOT the number of inputs (evaluations).',
     exhaustive={'thorough': 'all 2^32 arguments of a_u32_sqrt; all words of a_u8_rev, a_u16_rev, a_u32_rev; all gcd/lcm pairs < 1024',
                 'quick': None},
-    require=['sqrt32', 'sqrt64', 'gcd32', 'gcd64', 'lcm32', 'lcm64', 'rev', 'setl-layout', 'setb-layout', 'getl-inverse', 'getb-inverse', 'gcd-longest-euclid-chains', 'exported-accessors-back-to-back', 'sqrt64-around-small-multiples-of-powers-of-two'],
+    require=['sqrt32', 'sqrt64', 'gcd32', 'gcd64', 'lcm32', 'lcm64', 'rev', 'setl-layout', 'setb-layout', 'getl-inverse', 'getb-inverse', 'gcd-longest-euclid-chains', 'exported-accessors-back-to-back', 'sqrt64-around-small-multiples-of-powers-of-two', 'sqrt64-upper-part-next-to-a-perfect-square'],
     cov_files=['math.c', 'a.c'],
     cov_cases=200, cov_funcs=r'^a_u(8|16|32|64)_',
     assumptions=COMMON_ASSUMPTIONS + ['"regardless of host byte order" is exercised on this little-endian host only'],
@@ -120,6 +120,19 @@ def _with_o3(spec):
 
 for _n in _O3:
     _with_o3(PROPS['C%02d' % _n])
+
+# ... and against a size-optimised one (-Os -DNDEBUG: __OPTIMIZE_SIZE__ is a predefine the sources can branch on - seeded change C19-M)
+def _with_os(spec, of):
+    base = spec['configs'] if 'configs' in spec else (lambda tier: [dict(name='default')])
+    spec['configs'] = lambda tier: base(tier) + [dict(name='os-unsanitised', flavour='os', hflavour='plain', libdrop=['-fno-strict-aliasing'], nworkers=2, of=of)]
+    spec['parallel_configs'] = spec.get('parallel_configs', 1) + 1
+    spec['technique'] = spec.get('technique', '') + '; and against an unsanitised -Os -DNDEBUG build'
+    spec['assumptions'] = list(spec.get('assumptions', [])) + ['configuration os-unsanitised: library at -Os -DNDEBUG (size-optimised; the compiler predefines __OPTIMIZE_SIZE__), strict aliasing, no sanitizer; '
+                                                               'judged by the models and oracles alone; %s of the cases' % ('all' if of == 1 else 'one in %d' % of)]
+
+
+for _n in _O3:
+    _with_os(PROPS['C%02d' % _n], 2 if _n in (17, 18, 19) else 8)
 
 # link-time optimisation with strict aliasing on both sides (seeded changes C17-K, C19-K): harness/h_lto_codec.c hands the byte-oriented routines objects it has
 # just written through typed lvalues; library routines are inlined into those callers
